@@ -47,6 +47,9 @@ CHECKS = {
  "C08": dict(cat="exploration", ref="4/C08", tech="grammar-based property testing with a differential oracle: generated expression ASTs printed in the library dialect vs Python's eval of the canonical text, plus a negative family of malformed/unsupported strings",
    text="Expression ASTs drawn from the documented grammar are printed in the library dialect (random operator spelling, optional whitespace removed where Python allows, redundant parentheses, chained comparisons, adversarial names) and as canonical Python; names are provided as methods, properties or attributes on machine/model/listener; 1-3 cond/unless entries per transition, declared with to(), from_() or from_.any(). For >=5 valuations each the transition must fire iff Python's eval says so, and the observable name-read sequence must equal Python's short-circuit order. Malformed, unsupported and unknown-name strings must raise InvalidDefinition at instantiation and nothing else, never at send time.",
    note="Trusted: CPython's eval. Names under comparisons have one provider; coroutine operands (K1), operator spellings inside string literals (K4) and duplicate-equivalent entries (K8) are excluded and probed separately."),
+ "C07": dict(cat="exploration", ref="4/C07", tech="property-based testing against an independent argument binder: generated signatures (as real source text) x callback kinds x call shapes, observed locals() vs expected binding; colliding-name families for cache independence",
+   text="Signatures covering every ordering of positional-only, positional-or-keyword, defaulted, *args, keyword-only and **kwargs parameters with names drawn from the built-ins and user names are compiled from source as methods (machine/model/listener), free functions, partials, functools.wraps-decorated methods and coroutines, attached to every callback group and called with 0-4 positional arguments and keyword sets containing reserved names with decoy values, directly and forwarded by a parent callback. The locals() each callback records are compared with an independent 40-line binder (built-ins by identity). Callables sharing __name__/__qualname__/parameter names across unrelated classes are used alternately to show the binding depends on the callable's own signature only.",
+   note="Trusted: the oracle binder (pairing rule pinned by tests/test_signature.py). The deliberately raised TypeError for a keyword matching an unfilled positional-only parameter is outside the generated domain."),
 }
 def main():
     checks = []
